@@ -706,7 +706,39 @@ def rule_PC1(repo: Repo) -> RuleResult:
     nulls = [s for s in walk_no_nested(f.node) if isinstance(s, ast.Assign) and isinstance(s.targets[0], ast.Subscript)
              and const_int(s.value) == -1 and ("isnull" in norm(s.targets[0].slice) or "isna" in norm(s.targets[0].slice) or "isnan" in norm(s.targets[0].slice))]
     if nulls:
-        res.ok(f, nulls[0], norm(nulls[0]), "nulls belong to no bin")
+        # the only data that cannot hold nulls is integer data: the guard of the null assignment may exempt a row set only
+        # through a flag that IMPLIES "the values' dtype kind is integer" (a top-level conjunct of its definition)
+        guard = next((t for t in walk_no_nested(f.node) if isinstance(t, ast.If) and any(s is nulls[0] for b in (t.body, t.orelse) for s in b)), None)
+        verdict = None
+        if guard is not None and isinstance(guard.test, ast.UnaryOp) and isinstance(guard.test.op, ast.Not) and nulls[0] in guard.body:
+            g = guard.test.operand
+            sdefs: Dict[str, List[ast.AST]] = {}
+            for s_ in walk_no_nested(f.node):
+                if isinstance(s_, ast.Assign) and len(s_.targets) == 1 and isinstance(s_.targets[0], ast.Name):
+                    sdefs.setdefault(s_.targets[0].id, []).append(s_.value)
+            if isinstance(g, ast.Name) and len(sdefs.get(g.id, [])) == 1:
+                g = sdefs[g.id][0]
+            conj = g.values if isinstance(g, ast.BoolOp) and isinstance(g.op, ast.And) else [g]
+
+            def about_values(e: ast.AST) -> bool:
+                for n_ in ast.walk(e):
+                    if isinstance(n_, ast.Name) and (n_.id == x or any(x in {m.id for m in ast.walk(d) if isinstance(m, ast.Name)}
+                                                                           for d in sdefs.get(n_.id, []))):
+                        return True
+                return False
+            def int_kind(c_: ast.AST) -> bool:
+                if isinstance(c_, ast.Name) and len(sdefs.get(c_.id, [])) == 1:
+                    c_ = sdefs[c_.id][0]
+                return (isinstance(c_, ast.Compare) and len(c_.ops) == 1 and isinstance(c_.ops[0], (ast.In, ast.Eq))
+                        and isinstance(c_.comparators[0], ast.Constant) and isinstance(c_.comparators[0].value, str)
+                        and set(c_.comparators[0].value) <= set("uib") and "kind" in norm(c_.left) and about_values(c_.left))
+            verdict = any(int_kind(c_) for c_ in conj)
+        if verdict is False:
+            res.bad(f, guard, f"pretty_cut: {norm(nulls[0])} under `{norm(guard.test)[:60]}`",
+                    "the null assignment is skipped under a flag that does not imply integer VALUES: float (or temporal) data with "
+                    "nulls then keeps the searchsorted position of NaN, i.e. every null lands in the last (` > e`) bin")
+        else:
+            res.ok(f, nulls[0], norm(nulls[0]), "nulls belong to no bin")
     else:
         res.bad(f, f.node, "null values", "null values are no longer given the code -1 (searchsorted puts NaN after the last edge: the ` > e` bin)")
     # labels: one head, one per adjacent pair, one tail
@@ -865,6 +897,25 @@ def rule_MG1(repo: Repo) -> RuleResult:
     else:
         res.bad(am, calls[0], f"levels = {sorted(vals) if vals else (norm(lv_e) if lv_e is not None else 'missing')}",
                 f"_add_margins must pass the requested levels (list({mp})) when a list is given and None otherwise")
+    # which inputs count as "a list of levels": every 1-D sequence (list, tuple, array), decided by dimensionality - a test on
+    # one concrete container type sends the other sequences to levels=None (margins over ALL levels)
+    SEQ = {"list", "tuple", "ndarray", "Sequence", "Iterable", "Index", "Series"}
+    for t in walk_no_nested(am.node):
+        if not isinstance(t, (ast.If, ast.IfExp)):
+            continue
+        for c in ast.walk(t.test):
+            types = None
+            if isinstance(c, ast.Call) and norm(c.func) == "isinstance" and len(c.args) == 2 and norm(c.args[0]) == mp:
+                tt = c.args[1]
+                types = {norm(x).split(".")[-1] for x in (tt.elts if isinstance(tt, ast.Tuple) else [tt])}
+            elif isinstance(c, ast.Compare) and len(c.ops) == 1 and isinstance(c.ops[0], (ast.Is, ast.Eq, ast.IsNot, ast.NotEq)) \
+                    and norm(c.left) == f"type({mp})":
+                types = {norm(c.comparators[0]).split(".")[-1]}
+            if types and types & SEQ and not {"list", "tuple"} <= types and not types & {"Sequence", "Iterable"}:
+                res.bad(am, t, f"_add_margins: {norm(c)[:80]}",
+                        f"whether {mp} is a list of levels is decided by one concrete container type ({', '.join(sorted(types))}): a tuple "
+                        f"(or list, or array) of levels is then treated like margins=True and 'All' rows are added for EVERY level, "
+                        f"not only the requested ones")
     return res
 
 
@@ -1903,4 +1954,230 @@ def rule_D9c(repo: Repo) -> RuleResult:
                     "loses repeats", path=p.describe())
     if n < 1:
         raise AnalysisError("D9c: no path for a positional mask on a chunked key found in _resolve_mask_argument_into_chunks")
+    return res
+
+
+# ------------------------------------------------------------------------------------------------ E8 (EMA group codes)
+
+def rule_E8(repo: Repo) -> RuleResult:
+    """GroupBy.ema hands the grouped kernel one code per row that identifies the row's GROUP.  On every path the `group_key`
+    actual is built from the grouping's own code vector (self.group_ikey) or by repeating 0..ngroups-1 with the per-group
+    counts (the group-sorted layout).  Codes taken from an index object (one level of a MultiIndex, a factorised label
+    column) identify one key column only: groups that share it would share the kernel's running state."""
+    res = RuleResult("E8", "GroupBy.ema: the kernel's row codes are the grouping's own codes (self.group_ikey / 0..ngroups-1 repeated by counts)")
+    f = repo.func("groupby.core", "GroupBy.ema")
+    binds = [c for c in ast.walk(f.node) if isinstance(c, ast.Call) and any(k.arg == "group_key" for k in c.keywords)]
+    if not binds:
+        raise AnalysisError("E8: GroupBy.ema no longer binds group_key= for the grouped kernel")
+    actual = [k.value for k in binds[0].keywords if k.arg == "group_key"][0]
+
+    def verdict(e: ast.AST, defs: Dict[str, ast.AST], depth: int = 0) -> Tuple[bool, str]:
+        txt = norm(e)
+        for x in ast.walk(e):
+            if attr_chain(x) == ("self", "group_ikey"):
+                return True, "self.group_ikey"
+        reps = [c for c in ast.walk(e) if isinstance(c, ast.Call) and (call_name(c) or norm(c.func)).split(".")[-1] == "repeat"]
+        for c in reps:
+            if any(attr_chain(x) == ("self", "ngroups") for x in ast.walk(c)):
+                return True, "0..ngroups-1 repeated by the group counts"
+        if depth < 4:
+            for x in ast.walk(e):
+                if isinstance(x, ast.Name) and x.id in defs:
+                    ok, why = verdict(defs[x.id], defs, depth + 1)
+                    if ok:
+                        return ok, why
+        return False, txt
+
+    seen = set()
+    for p in enumerate_paths(f.node.body, limit=60000):
+        if p.exit == "raise" or infeasible(p):
+            continue
+        defs: Dict[str, ast.AST] = {}
+        for st in p.stmts:
+            if isinstance(st, ast.Assign) and len(st.targets) == 1 and isinstance(st.targets[0], ast.Name):
+                defs[st.targets[0].id] = st.value
+        e = defs.get(actual.id) if isinstance(actual, ast.Name) else actual
+        if e is None:
+            e = actual
+        key = norm(e)
+        if key in seen:
+            continue
+        seen.add(key)
+        ok, why = verdict(e, defs)
+        if ok:
+            res.ok(f, e, f"GroupBy.ema: group_key = {key[:80]}", why)
+        else:
+            res.bad(f, e, f"GroupBy.ema: group_key = {key[:80]}",
+                    "the codes handed to the grouped EMA kernel are not derived from the grouping's own codes (self.group_ikey, or "
+                    "np.arange(self.ngroups) repeated by the group counts): codes read off an index level identify one key column only, "
+                    "so groups that share it share the running state and a group's first rows repeat another group's output",
+                    path=p.describe())
+    if not seen:
+        raise AnalysisError("E8: no path of GroupBy.ema reaches the kernel call")
+    return res
+
+
+# ------------------------------------------------------------------------------------------------ A14 (validation sees the inputs as given)
+
+def rule_A14(repo: Repo) -> RuleResult:
+    """_preprocess_arguments validates the inputs AS GIVEN.  The list handed to _validate_input_lengths_and_indexes must not be
+    (an alias of) a list whose elements are replaced before the call: the timestamp conversion replaces pandas Series by bare
+    arrays, and a validator that sees the replaced elements no longer sees their index (a misaligned temporal Series is then
+    grouped by position)."""
+    res = RuleResult("A14", "_preprocess_arguments: the validator receives a snapshot of the inputs taken before any element is converted")
+    f = repo.func("groupby.core", "GroupBy._preprocess_arguments")
+    calls = [c for c in walk_no_nested(f.node) if isinstance(c, ast.Call) and (call_name(c) or "").split(".")[-1] == "_validate_input_lengths_and_indexes"]
+    if not calls:
+        raise AnalysisError("A14: _preprocess_arguments no longer calls _validate_input_lengths_and_indexes")
+    for c in calls:
+        if not c.args:
+            continue
+        arg_names = {n.id for n in ast.walk(c.args[0]) if isinstance(n, ast.Name)}
+        closure = set(arg_names)
+        changed = True
+        while changed:
+            changed = False
+            for s in walk_no_nested(f.node):
+                if isinstance(s, ast.Assign) and len(s.targets) == 1 and isinstance(s.targets[0], ast.Name) and s.targets[0].id in closure \
+                        and s.lineno < c.lineno:
+                    v = s.value
+                    # plain alias (or a conditional alias): the same list object
+                    srcs = [v] if isinstance(v, ast.Name) else [v.body, v.orelse] if isinstance(v, ast.IfExp) else []
+                    for y in srcs:
+                        if isinstance(y, ast.Name) and y.id not in closure:
+                            closure.add(y.id)
+                            changed = True
+        stores = []
+        for s in walk_no_nested(f.node):
+            if isinstance(s, (ast.Assign, ast.AugAssign)) and s.lineno < c.lineno:
+                tg = s.targets if isinstance(s, ast.Assign) else [s.target]
+                for t in tg:
+                    for e in (t.elts if isinstance(t, (ast.Tuple, ast.List)) else [t]):
+                        if isinstance(e, ast.Subscript) and isinstance(e.value, ast.Name) and e.value.id in closure:
+                            stores.append((s, e.value.id))
+        if stores:
+            s, nm = stores[0]
+            res.bad(f, c, f"_preprocess_arguments: {norm(c)[:70]} after `{norm(s)[:60]}`",
+                    f"the list that is validated is the same object as `{nm}`, whose elements are replaced (timestamp Series -> bare arrays) "
+                    f"before the validator runs: the validator no longer sees the pandas index of those inputs, so a misaligned "
+                    f"temporal Series of the right length is accepted and grouped by position")
+        else:
+            res.ok(f, c, f"_preprocess_arguments: {norm(c)[:70]}", "a snapshot taken before the conversion loop")
+    return res
+
+
+# ------------------------------------------------------------------------------------------------ T5 (temporal int views stay integers)
+
+def rule_T5(repo: Repo) -> RuleResult:
+    """Exact temporal arithmetic.  The int64 views produced by _cast_timestamps_to_ints reach the kernels as integers: between
+    the cast and the restoring astype(orig_dtype) they are never mixed with NaN or cast to float (np.where(.., np.nan, v),
+    v.astype(float), v * 1.0): float64 has 53 bits, nanosecond timestamps need 61."""
+    res = RuleResult("T5", "temporal values: the int64 views are not routed through float64 between the cast and the restore")
+    n = 0
+    for modname in ("groupby.numba", "groupby.core"):
+        m = repo.mod(modname)
+        for f in m.functions.values():
+            if f.is_njit or "_cast_timestamps_to_ints" not in norm(f.node):
+                continue
+            taint: Set[str] = set()
+            for s in walk_no_nested(f.node):
+                if isinstance(s, ast.Assign) and "_cast_timestamps_to_ints" in norm(s.value):
+                    t = s.targets[0]
+                    first = t.elts[0] if isinstance(t, (ast.Tuple, ast.List)) and t.elts else t
+                    if isinstance(first, ast.Name):
+                        taint.add(first.id)
+            if not taint:
+                continue
+            n += 1
+            found = False
+            # a reduction that is a float by definition (sum of squares for var / std, mean) may convert: exempt the statements
+            # under a test that names such an operation
+            FLOAT_OPS = ("sum_squares", "var", "std", "mean")
+            exempt = set()
+            for t in walk_no_nested(f.node):
+                if isinstance(t, ast.If) and any(isinstance(k, ast.Constant) and isinstance(k.value, str) and k.value in FLOAT_OPS
+                                                 for k in ast.walk(t.test)):
+                    for b in t.body:
+                        exempt.update(id(x) for x in ast.walk(b))
+            for s in walk_no_nested(f.node):
+                if not isinstance(s, (ast.Assign, ast.AugAssign, ast.Return, ast.Expr)) or id(s) in exempt:
+                    continue
+                for e in ast.walk(s):
+                    bad = None
+                    names = lambda x: {y.id for y in ast.walk(x) if isinstance(y, ast.Name)}
+                    if isinstance(e, ast.Call) and norm(e.func) in ("np.where", "numpy.where") and len(e.args) == 3:
+                        a, b = e.args[1], e.args[2]
+                        if any(norm(z) in ("np.nan", "numpy.nan", "float('nan')", "np.NaN") for z in (a, b)) and (names(a) | names(b)) & _t5_names(f, taint):
+                            bad = "mixed with NaN by np.where"
+                    elif isinstance(e, ast.Call) and isinstance(e.func, ast.Attribute) and e.func.attr == "astype" and e.args \
+                            and norm(e.args[0]).strip("'\"") in ("float", "float64", "np.float64", "numpy.float64", "f8", "np.float32", "float32") \
+                            and names(e.func.value) & _t5_names(f, taint):
+                        bad = "cast to float"
+                    if bad:
+                        found = True
+                        res.bad(f, e, f"{f.qualname}: {norm(e)[:80]}",
+                                f"the int64 view of the temporal values is {bad} before it reaches the kernel: float64 carries 53 bits, "
+                                f"nanosecond timestamps (and timedeltas beyond ~104 days) need more, so cumulative / reduced temporal "
+                                f"results are off by up to ~100 ns instead of being exact")
+            if not found:
+                res.ok(f, f.node, f"{f.qualname}: int64 views of temporal values stay integers", "", nontrivial=False)
+    if n == 0:
+        raise AnalysisError("T5: no function takes int views with _cast_timestamps_to_ints any more")
+    return res
+
+
+def _t5_names(f: Func, taint: Set[str]) -> Set[str]:
+    """the cast results and the loop / comprehension variables that iterate over them"""
+    out = set(taint)
+    for x in ast.walk(f.node):
+        if isinstance(x, ast.comprehension) and {y.id for y in ast.walk(x.iter) if isinstance(y, ast.Name)} & out:
+            out |= {y.id for y in ast.walk(x.target) if isinstance(y, ast.Name)}
+        if isinstance(x, ast.For) and {y.id for y in ast.walk(x.iter) if isinstance(y, ast.Name)} & out:
+            out |= {y.id for y in ast.walk(x.target) if isinstance(y, ast.Name)}
+    return out
+
+
+# ------------------------------------------------------------------------------------------------ V1 (frequencies are shares of the counted rows)
+
+def rule_V1(repo: Repo) -> RuleResult:
+    """value_counts(normalize=True): the frequencies are the counts divided by THEIR OWN total.  Rows whose key is null are in no
+    count; a denominator taken from the number of input rows (len(..), .shape[0], .size of the input / the grouping) makes every
+    group's frequency depend on how many null-key rows there are."""
+    res = RuleResult("V1", "value_counts: normalised by the sum of the counts, never by the number of input rows")
+    f = repo.func("groupby.core", "value_counts")
+    sdefs: Dict[str, List[ast.AST]] = {}
+    for s in walk_no_nested(f.node):
+        if isinstance(s, ast.Assign) and len(s.targets) == 1 and isinstance(s.targets[0], ast.Name):
+            sdefs.setdefault(s.targets[0].id, []).append(s.value)
+    divs = [e for e in walk_no_nested(f.node) if isinstance(e, ast.BinOp) and isinstance(e.op, (ast.Div, ast.FloorDiv))]
+    divs += [s for s in walk_no_nested(f.node) if isinstance(s, ast.AugAssign) and isinstance(s.op, (ast.Div, ast.FloorDiv))]
+    divs += [e for e in walk_no_nested(f.node) if isinstance(e, ast.Call) and isinstance(e.func, ast.Attribute) and e.func.attr in ("div", "divide", "truediv") and e.args]
+    if not divs:
+        raise AnalysisError("V1: value_counts no longer divides the counts (normalize=True)")
+
+    def arms(e: ast.AST, depth: int = 0) -> List[ast.AST]:
+        if isinstance(e, ast.IfExp):
+            return arms(e.body, depth) + arms(e.orelse, depth)
+        if isinstance(e, ast.Name) and e.id in sdefs and depth < 4:
+            out = []
+            for d in sdefs[e.id]:
+                out += arms(d, depth + 1)
+            return out
+        return [e]
+    for d in divs:
+        den = d.right if isinstance(d, ast.BinOp) else d.value if isinstance(d, ast.AugAssign) else d.args[0]
+        for a in arms(den):
+            t = norm(a)
+            rows = any(isinstance(c, ast.Call) and norm(c.func) == "len" for c in ast.walk(a)) or ".shape" in t or \
+                any(isinstance(x, ast.Attribute) and x.attr == "size" and not isinstance(getattr(x, "ctx", None), ast.Store) and
+                    not any(isinstance(c, ast.Call) and c.func is x for c in ast.walk(a)) for x in ast.walk(a))
+            if rows:
+                res.bad(f, d, f"value_counts: / {t[:60]}",
+                        "the frequencies are divided by a number of ROWS: rows with a null key are in no count but are in that total, so "
+                        "every group's frequency shrinks with the number of null-key rows (and the frequencies no longer add up to 1)")
+            elif any(isinstance(c, ast.Call) and isinstance(c.func, ast.Attribute) and c.func.attr == "sum" for c in ast.walk(a)) \
+                    or any(isinstance(c, ast.Call) and norm(c.func) in ("np.sum", "sum", "np.nansum") for c in ast.walk(a)):
+                res.ok(f, d, f"value_counts: / {t[:60]}", "the total of the counts")
+            else:
+                res.ok(f, d, f"value_counts: / {t[:60]}", "not a row count", nontrivial=False)
     return res
